@@ -156,7 +156,7 @@ func (w *World) verifyFunc(key string, timeout int, all bool, only string) (*fun
 			defer func() { <-sem }()
 			q := vc.Query(o)
 			o.Query = q
-			o.StrLits = map[string]string{"str.empty": ""}
+			o.StrLits = map[string]string{"sempty": ""}
 			for text, sym := range vc.strLits {
 				o.StrLits[sym] = text
 			}
@@ -267,6 +267,41 @@ func main() {
 		if bad > 0 {
 			os.Exit(1)
 		}
+	case "verify-all":
+		// verify every function that has an in-repo contract; prints only what is not discharged
+		w, err := loadWorld([]string{"./src/..."})
+		must(err)
+		var keys []string
+		for k, c := range w.specs.Contracts {
+			if strings.Contains(c.File, "/repo/") && w.funcs[k] != nil {
+				keys = append(keys, k)
+			} else if strings.Contains(c.File, "/repo/") {
+				fmt.Println("TARGET-MISSING", k, c.File)
+			}
+		}
+		sort.Strings(keys)
+		total, bad := 0, 0
+		start := time.Now()
+		for _, k := range keys {
+			fr, err := w.verifyFunc(k, 10, false, "")
+			if err != nil {
+				fmt.Println("ERROR", k, err)
+				bad++
+				continue
+			}
+			for _, e := range fr.Errors {
+				fmt.Println("GENERROR", k, e)
+				bad++
+			}
+			for _, o := range fr.VC.Obls {
+				total++
+				if o.Result != "unsat" {
+					bad++
+					fmt.Printf("  %-8s %s [%s]\n", o.Result, o.Name, o.Pos)
+				}
+			}
+		}
+		fmt.Printf("%d functions, %d obligations, %d not discharged, %.1fs\n", len(keys), total, bad, time.Since(start).Seconds())
 	case "check":
 		os.Exit(checkMain(os.Args[2:]))
 	default:
